@@ -186,6 +186,11 @@ def execute(plan):
         stats["or.follow_up"] += 1
         if C.result_digest() != ref_r or C.event_digest() != ref_e:
             add("state_left_behind", dict(w, reference=ref_r[:16], after=C.result_digest()[:16]))
+        elif B.globals_changed:
+            # a process-wide setting (numpy error state, print options, warning filters, logging) that
+            # the failed call left modified: user code that depends on it (an objective guarding
+            # overflow through numpy's warnings, say) no longer behaves as in a fresh process
+            add("state_left_behind", dict(w, process_wide_settings=B.globals_changed))
         keys.add(
             "|".join(
                 str(v)
@@ -209,6 +214,8 @@ def execute(plan):
             C = run()
             if C.result_digest() != ref_r or C.event_digest() != ref_e:
                 add("state_left_behind", {"after_interrupt_at_line_step": N})
+            elif I.globals_changed:
+                add("state_left_behind", {"after_interrupt_at_line_step": N, "process_wide_settings": I.globals_changed})
             keys.add("|".join(str(v) for v in (spec["family"], cfg["jac"], "interrupt", min(N * 10 // max(L, 1), 9), bool(blob))))
     shape = {"injections": len(injections), "calls": {a: int(A.counts[a]) for a in ACTORS}}
     return {"violations": viol, "stats": stats, "keys": keys, "digest": ref_e, "shape": shape}
